@@ -363,7 +363,12 @@ fn check_c35(plan: &Plan, out: &Outcome) -> Verdict {
         v.violate("C35", "C35.panic", format!("C35.panic {}", pn.msg.split(" @ ").next().unwrap_or("")), format!("entity creation made a dust-dds task panic: {}", pn.msg));
         return v;
     }
-    let _ = plan;
+    if out.steps >= plan.max_steps || out.sim_ns / 1_000_000 >= plan.max_sim_ms {
+        // the run used up its step or simulated-time budget (large thorough-tier histories under an unfair schedule): calls that have
+        // not returned by then say nothing
+        v.inconclusive = true;
+        return v;
+    }
     with_hist(|h| {
         let recs: Vec<&Rec> = h.recs.iter().filter(|r| r.phase == 1).collect();
         let mut live: BTreeMap<(String, u32), Hd> = BTreeMap::new();
@@ -1015,12 +1020,14 @@ fn check_c37(_plan: &Plan, out: &Outcome) -> Verdict {
     let mut ents: Vec<(&str, u32, [u8; 16])> = out.world.st.borrow().writers.iter().map(|(id, w)| ("writer", *id, w.handle)).collect();
     ents.extend(out.world.st.borrow().readers.iter().map(|(id, r)| ("reader", *id, r.handle)));
     let finals: BTreeMap<(String, u32), Q> = with_hist(|h| h.recs.iter().filter(|r| r.phase == 2).filter_map(|r| if let (Op::GetQos { kind, id }, Res::Qos(Ok(q))) = (&r.op, &r.res) { Some(((kind.clone(), *id), q.clone())) } else { None }).collect());
-    let announced: Vec<(u32, Vec<(u16, Vec<u8>)>)> = crate::net::with_net(|n| n.wire.iter().filter(|w| w.src.is_some() && w.src == node0 && w.class & crate::wire::C_SEDP != 0).filter_map(|w| w.bytes.clone()).flat_map(|b| crate::wire::discovery_parameters(&b)).collect());
+    let announced: Vec<(u32, i64, Vec<(u16, Vec<u8>)>)> = crate::net::with_net(|n| n.wire.iter().filter(|w| w.src.is_some() && w.src == node0 && !w.dup && w.class & crate::wire::C_SEDP != 0).filter_map(|w| w.bytes.clone()).flat_map(|b| crate::wire::discovery_parameters(&b)).collect());
     for (kind, id, handle) in ents {
         let Some(q) = finals.get(&(kind.to_string(), id)) else { continue };
         let sedp_writer = if kind == "writer" { 0x0000_03c2u32 } else { 0x0000_04c2 };
-        let last = announced.iter().rev().find(|(w, ps)| *w == sedp_writer && ps.iter().any(|(pid, val)| *pid == 0x005a && val.len() >= 16 && val[..16] == handle));
-        let Some((_, ps)) = last else {
+        // the most recent announcement is the one with the highest sequence number of the discovery writer (older
+        // changes can be on the wire later: retransmissions, duplicates)
+        let last = announced.iter().filter(|(w, _, ps)| *w == sedp_writer && ps.iter().any(|(pid, val)| *pid == 0x005a && val.len() >= 16 && val[..16] == handle)).max_by_key(|x| x.1);
+        let Some((_, _, ps)) = last else {
             v.violate("C37", "C37.not-announced", format!("C37.not-announced {kind}"), format!("{kind} {id} was created but no endpoint announcement for it was sent to the discovered participant"));
             continue;
         };
